@@ -422,34 +422,92 @@ func c05History(r *Run, cfg idxConfig, batches [][]RowOpJ, stream string) bool {
 		}
 		// oracle: every index equals the scan
 		st := implStep{}
-		for _, sp := range cfg.specs {
-			cols := strings.Split(sp.Name, ",")
-			idx, err := rc.Index(cols...)
-			if err != nil {
-				r.Violation(stream, caseJSON, err.Error(), "", false, "Index() rejects a configured index", "")
-				return false
-			}
-			single := len(sp.Cols) == 1
-			implG := map[string][]string{}
-			for k, us := range idx {
-				key := fmt.Sprintf("%v", k)
-				if single {
-					key = canonKeyOfIndexKey(k)
+		checkIndexes := func(stage string, record bool) bool {
+			for _, sp := range cfg.specs {
+				cols := strings.Split(sp.Name, ",")
+				idx, err := rc.Index(cols...)
+				if err != nil {
+					r.Violation(stream, caseJSON, err.Error(), "", false, "Index() rejects a configured index", "")
+					return false
 				}
-				implG[key] = append([]string{}, us...)
+				single := len(sp.Cols) == 1
+				implG := map[string][]string{}
+				for k, us := range idx {
+					key := fmt.Sprintf("%v", k)
+					if single {
+						key = canonKeyOfIndexKey(k)
+					}
+					implG[key] = append([]string{}, us...)
+				}
+				scanG := map[string][]string{}
+				for u, row := range table {
+					v := idxValOf(sp, row)
+					scanG[v] = append(scanG[v], u)
+				}
+				ig, sg := groupsCanon(implG, single), groupsCanon(scanG, single)
+				if ig != sg {
+					r.Violation(stream, caseJSON, ig, sg, true,
+						fmt.Sprintf("batch %d%s: index %q (schema=%v) differs from a full scan of the cache", bi, stage, sp.Name, sp.Schema), "")
+					return false
+				}
+				if record {
+					st.groups = append(st.groups, groupsCanon(implG, false))
+				}
 			}
-			scanG := map[string][]string{}
-			for u, row := range table {
-				v := idxValOf(sp, row)
-				scanG[v] = append(scanG[v], u)
+			return true
+		}
+		if !checkIndexes("", true) {
+			return false
+		}
+		// reads must leave the indexes alone: conditional lookups pairing an equality on an indexed column
+		// (taken from a stored row, so several rows may share it) with a second condition that keeps only
+		// some of those rows; the indexes are compared with the scan again afterwards
+		if len(table) > 0 && len(cfg.specs) > 0 {
+			var reads [][]CondJ
+			us := make([]string, 0, len(table))
+			for u := range table {
+				us = append(us, u)
 			}
-			ig, sg := groupsCanon(implG, single), groupsCanon(scanG, single)
-			if ig != sg {
-				r.Violation(stream, caseJSON, ig, sg, true,
-					fmt.Sprintf("batch %d: index %q (schema=%v) differs from a full scan of the cache", bi, sp.Name, sp.Schema), "")
+			sort.Strings(us)
+			for k := 0; k < 3; k++ {
+				src := table[us[r.Rng.Intn(len(us))]]
+				other := table[us[r.Rng.Intn(len(us))]]
+				sp := cfg.specs[r.Rng.Intn(len(cfg.specs))]
+				var conds []CondJ
+				for _, c := range sp.Cols {
+					if c.Key != nil {
+						v := &Value{K: 'M'}
+						for _, p := range src[c.Col].M {
+							if p[0].Key() == c.Key.Key() {
+								v.M = append(v.M, p)
+							}
+						}
+						if len(v.M) > 0 {
+							conds = append(conds, CondJ{Col: c.Col, Fn: "includes", Val: v})
+						}
+					} else {
+						conds = append(conds, CondJ{Col: c.Col, Fn: "==", Val: cloneValue(src[c.Col])})
+					}
+				}
+				switch r.Rng.Intn(3) {
+				case 0:
+					conds = append(conds, CondJ{Col: "_uuid", Fn: "==", Val: VA(AU(us[r.Rng.Intn(len(us))]))})
+				case 1:
+					conds = append(conds, CondJ{Col: "n", Fn: []string{"==", "!=", "<"}[r.Rng.Intn(3)], Val: cloneValue(other["n"])})
+				default:
+					conds = append(conds, CondJ{Col: "name", Fn: []string{"==", "!="}[r.Rng.Intn(2)], Val: cloneValue(other["name"])})
+				}
+				if r.Rng.Intn(2) == 0 {
+					conds[0], conds[len(conds)-1] = conds[len(conds)-1], conds[0]
+				}
+				reads = append(reads, conds)
+				_, _ = queryImpl(db, rc, conds)
+			}
+			caseJSON["reads_after_batch"] = reads
+			if !checkIndexes(" (after conditional reads that followed it)", false) {
 				return false
 			}
-			st.groups = append(st.groups, groupsCanon(implG, false))
+			delete(caseJSON, "reads_after_batch")
 		}
 		// lookups: probes per spec built from an existing row or random values
 		for _, sp := range cfg.specs {
